@@ -14,6 +14,7 @@ RULE = (
     "incl. NaN/denormal/-0.0/inf behind and in front of the mask; half of them sub-screens carrying the mappings of a strict "
     "superset; 1..3 consecutive save/load cycles, in half the cases onto a path that already holds an archive of exactly the same shapes with shorter names (or of the same rows with smaller mappings); 4% of the cases are long screens (1000..9001 rows, thorough tier also 65537/70001; up to 20000 treatment names, 5000 samples, 4500 plates) whose longest and multi-byte names sit at drawn, mostly late, positions; ExperimentSpace.from_screen saved/loaded too. Non-trivial = mapping strictly "
     "larger than the rows' own encoding, or a non-ASCII or empty name; afterwards the same object is changed in place (set_observed, Plate.merge), saved and loaded again. distinct = distinct case JSON."
+    ' Also: supplied mappings numbered by hand (ids and entries in no particular order) in a third of the cases, and fixed cases in which the archive is written, read and re-written by separate interpreter processes with different string-hash salts.'
 )
 ASSUMPTIONS = [
     "0-row screens are excluded: Screen.save_h5 refuses them (TypeError from np.char.encode) - a refusal, not a lossy round trip",
@@ -83,7 +84,7 @@ def _case(draw):
     if draw(st.integers(0, 24)) == 0:
         return {"long": draw(_long()), "cycles": 1, "superset": False}
     sc = draw(S.screen_case(min_rows=1, max_rows=12, obs=S.any_obs))
-    case = {"screen": sc, "cycles": draw(st.integers(1, 3)), "superset": draw(st.booleans()), "occupied": draw(st.booleans()), "synonym": draw(st.integers(0, 3)) == 0}
+    case = {"screen": sc, "cycles": draw(st.integers(1, 3)), "superset": draw(st.booleans()), "occupied": draw(st.booleans()), "synonym": draw(st.integers(0, 3)) == 0, "hand": draw(st.one_of(st.none(), st.none(), st.tuples(st.integers(1, 5), st.booleans())))}
     if case["superset"]:
         case["extra"] = draw(S.screen_case(arity=sc["arity"], control=sc["control"], min_rows=1, max_rows=6, obs=S.any_obs))["rows"]
     return case
@@ -96,8 +97,65 @@ def strategy(tier):
 def exhaustive(tier):
     # fixed long screens: block sizes 2**12 and 2**16 crossed, the longest names in the last rows
     sizes = [4097, 9000] if tier == "quick" else [4097, 9000, 65537, 70001]
+    for c in _xproc_cases(tier):
+        yield c
     for n in sizes:
         yield {"long": {"n_rows": n, "arity": 2, "n_names": 20000, "n_samples": 5000, "n_plates": 4500, "special": [["t", 1.0, 9, "-liposomal"], ["s", 0.999, 10, "-resistant"], ["p", 0.999, 3, "\u00fc"]], "control": "DMSO"}, "cycles": 1, "superset": False}
+
+
+def _xproc_cases(tier):
+    # one process writes the archive, another one (another string-hash salt, as every pipeline stage has) reads it: screens whose
+    # supplied mappings are numbered by hand (ids in no particular order, entries listed in no particular order, conditions the
+    # rows do not use) - the constructor follows such a mapping verbatim, so persistence has to keep it verbatim
+    n = 2 if tier == "quick" else 6
+    for k in range(n):
+        rows = []
+        for i in range(5 + 3 * k):
+            rows.append({"s": ["HT-29", "A549", "a549", "U2OS", "\u00e4-line"][(i * 3 + k) % 5], "p": "p%d" % (i % 3), "t": ["drug%d" % ((i + k) % 4), ["drug%d" % ((2 * i + 1) % 4), "DMSO"][i % 3 == 0]], "d": [[1.0, 0.1, 10.0][i % 3], [2.5, 0.0][i % 3 == 0] if i % 3 == 0 else [2.5, 0.3][i % 2]], "o": 0.1 + 0.05 * i})
+        yield {"xproc": {"arity": 2, "control": "DMSO", "rows": rows, "observed": ["p0"], "ns": 5, "nt": 16, "layout": None}, "rotate": 1 + k, "reverse": k % 2 == 0, "extra": k % 3 != 2, "hashseeds": [11 + k, 977 + 13 * k]}
+
+
+def _xproc_screen(sc, rotate, reverse, extra):
+    """the hand-numbered screen of an xproc case; built the same way by the writing and by the comparing process"""
+    base = S.build_screen(sc)
+    return _hand_numbered(sc, base.treatment_mapping, base.sample_mapping, rotate, reverse, extra)
+
+
+def _hand_numbered(sc, tm, sm, rotate, reverse, extra):
+    tn, td, ti = [np.asarray(x) for x in tm]
+    sn, si = [np.asarray(x) for x in sm]
+    tn, sn = tn.astype(str), sn.astype(str)
+    if extra:
+        nxt = int(ti.max()) + 1 if len(ti) else 0
+        tn, td, ti = np.append(tn, ["zz-unused", "aa-unused"]), np.append(td, [4.0, 0.25]), np.append(ti, [nxt, nxt + 1])
+        sn, si = np.append(sn, ["0-unused-sample"]), np.append(si, [int(si.max()) + 1 if len(si) else 0])
+    nt = int(ti.max()) + 1 if len(ti) and ti.max() >= 0 else 0
+    ti = np.where(ti >= 0, (ti + rotate) % max(nt, 1), ti)
+    si = (si * (rotate + 1) + 1) % len(si) if np.gcd(rotate + 1, len(si)) == 1 else (si + rotate) % len(si)
+    if reverse:
+        tn, td, ti, sn, si = tn[::-1].copy(), td[::-1].copy(), ti[::-1].copy(), sn[::-1].copy(), si[::-1].copy()
+    return S.build_screen(sc, treatment_mapping=(tn, td, ti), sample_mapping=(sn, si))
+
+
+def _check_xproc(case):
+    from batchie.data import Screen
+    from vf import xproc
+
+    args = {"sc": case["xproc"], "rotate": case["rotate"], "reverse": case["reverse"], "extra": case["extra"]}
+    want = _xproc_screen(**args)
+    own = S.build_screen(case["xproc"])
+    require(not S.mapping_equal(want.treatment_mapping, own.treatment_mapping) and not S.mapping_equal(want.sample_mapping, own.sample_mapping), "harness", "hand-numbered mappings equal the derived ones")
+    p1, p2 = tmp.fresh("xproc_a.h5"), tmp.fresh("xproc_b.h5", odd=case["rotate"])
+    try:
+        ok, text = xproc.python("from checks import c02_persist as c\nc._xproc_screen(**params['args']).save_h5(params['path'])\n", case["hashseeds"][0], args=args, path=p1)
+        require(ok, "xproc.save_failed", lambda: "saving the screen in its own process failed: %s" % text[-600:])
+        compare_screens(want, Screen.load_h5(p1), "saved_by_another_process")
+        ok, text = xproc.python("from batchie.data import Screen\nScreen.load_h5(params['src']).save_h5(params['dst'])\n", case["hashseeds"][1], src=p1, dst=p2)
+        require(ok, "xproc.resave_failed", lambda: "loading and saving the archive in a third process failed: %s" % text[-600:])
+        compare_screens(want, Screen.load_h5(p2), "passed_through_two_other_processes")
+    finally:
+        tmp.cleanup(p1, p2)
+    return {"nontrivial": True, "labels": ["one-process-per-step", "hand-numbered-mappings"]}
 
 
 def observables(s):
@@ -172,6 +230,9 @@ def _short_sibling(s, control):
 def check_case(case):
     from batchie.data import Screen, ExperimentSpace
 
+    if "xproc" in case:
+        return _check_xproc(case)
+
     sc = _long_sc(case["long"]) if "long" in case else case["screen"]
     strict = False
     if case["superset"]:
@@ -181,6 +242,9 @@ def check_case(case):
         strict = len(sup.treatment_mapping[0]) > len(own.treatment_mapping[0]) or len(sup.sample_mapping[0]) > len(own.sample_mapping[0])
     else:
         s0 = S.build_screen(sc)
+    if case.get("hand") and "long" not in case:
+        # the same rows under a mapping numbered by hand (ids and entries in no particular order)
+        s0 = _hand_numbered(sc, s0.treatment_mapping, s0.sample_mapping, case["hand"][0], case["hand"][1], False)
     synonym = False
     if case.get("synonym") and "long" not in case and sc["rows"]:
         # a supplied sample mapping that lists a synonym: two names, one id (the constructor accepts it; the names are data and
